@@ -105,7 +105,8 @@ addenda = {
     "C03": "Added: the /status page is built from a single Stats() call and reports its four values in the fields named for them (call-site obligation on the encoded struct).",
     "C06": "Added: gRPC GetActionResult with dependency checking answers only from GetValidatedActionResult (a nil result becomes an error, inlining runs only on hits); HTTP GET/HEAD of a validated /ac/ entry answer 200 only "
            "when GetValidatedActionResult returned data.",
-    "C10": "Added: the gRPC FindMissingBlobs handler passes the request's digest list, whole and unchanged, to the cache after checking that no element is nil or malformed (loop invariant), and returns exactly the slice the cache reports.",
+    "C10": "Added: the gRPC FindMissingBlobs handler passes the request's digest list, whole and unchanged, to the cache after checking that no element is nil or malformed (loop invariant), and returns exactly the slice the cache reports; "
+           "in findMissingCasBlobsInternal every iteration over a non-nil digest whose size is within max_proxy_blob_size performs exactly one hand-over to a backend worker (per-iteration step clause over the channel-send counter).",
     "C11": "Added: gRPC UpdateActionResult stores, in key space AC and under the (mangled) action digest, only a message for which validate.ActionResult returned nil (validAR holds at the Put), and returns that message; "
            "the HTTP handler validates the parsed message before it re-marshals and stores it; the hash pattern behind hex64 is pinned.",
     "C12": "Added: the HTTP backend's Put either hands the reader to an uploader (exactly one channel send containing it) or closes it (exactly one Close) - a full upload queue leaks nothing.",
